@@ -145,9 +145,12 @@ class C03(PropBase):
                 for d in m["decls"]:
                     if d["d"] in ("plain", "slotsclass") and d["fields"] and d["fields"][0]["t"]["k"] in ("int", "str"):
                         d["reject"] = {"n": d["fields"][0]["n"], "v": 0 if d["fields"][0]["t"]["k"] == "int" else ""}
+                        if rng.random() < 0.5:
+                            d["reject"]["exc"] = "StopIteration"
         lk = view.lookup()
         mods = [m["name"] for m in world["modules"]]
         env = self.base_env(rng, fault_free=not sw)
+        rejecting = [(m["name"], d) for m in world["modules"] for d in m["decls"] if d.get("reject")]
         pool = []
         for t in gen.root_types(view, rng, cfg, rng.randint(2, 5)):
             pool.append((t, [gen.gen_pair(rng, t, lk, cfg) for _ in range(rng.randint(1, 2))]))
@@ -159,6 +162,33 @@ class C03(PropBase):
             r = rng.random()
             if fk and steps and r < 0.15:
                 steps.append(hist.fault_step(rng, rng.choice(fk), steps))
+                continue
+            if rejecting and r < 0.4:
+                # F11 inside an operation with in-flight state: a collection whose k-th member is
+                # refused by its (user) constructor while the conversion is under way
+                mname, d = rng.choice(rejecting)
+                ref = {"k": "ref", "m": mname, "n": d["n"]}
+                elems = []
+                k_bad = rng.randrange(0, 4)
+                for j in range(rng.randint(k_bad + 1, 5)):
+                    v, w = gen.gen_pair(rng, ref, lk, cfg)
+                    w = copy.deepcopy(w)
+                    for pair in w["$dict"]:
+                        if pair[0] == d["reject"]["n"]:
+                            pair[1] = d["reject"]["v"] if j == k_bad else (7 if isinstance(d["reject"]["v"], int) else "ok")
+                    elems.append(w)
+                shape = rng.choice(["list", "tuplevar", "dict", "deque", "Sequence"])
+                if shape == "dict":
+                    t = {"k": "dict", "a": [{"k": "str"}, {"k": "list", "a": ref}]}
+                    x = {"$dict": [["k", {"$list": elems}]]}
+                else:
+                    t = {"k": shape, "a": ref} if shape != "Sequence" else {"k": "Sequence", "sp": "typing", "a": ref}
+                    x = {"$list": elems}
+                if rng.random() < 0.3:
+                    txt = hist.json_text(x)
+                    if txt is not None:
+                        x = hist.carry(txt, rng.choice(["str", "bytes"]))
+                steps.append({"op": "unmarshal", "t": t, "mod": rng.choice(mods), "x": x, "f12": ["member-rejected:" + d["reject"].get("exc", "ValueError")], "clean": None})
                 continue
             t, pairs = rng.choice(pool)
             if "twin" in sw and rng.random() < 0.3:
@@ -220,18 +250,78 @@ class C03(PropBase):
         if step["op"] not in ("unmarshal", "decode"):
             return
         for o in step.get("f12", ()):
-            sess.faults["F12:" + o if o in STRUCT_OPS + BYTE_OPS else o] += 1
+            sess.faults["F12:" + o if o in STRUCT_OPS + BYTE_OPS else ("F11:" + o if o.startswith("member-rejected") else o)] += 1
         if step.get("f12") and step["f12"] != ["clean"]:
             sess.fault_fired_before = True
         if not out.ok:
             if isinstance(out.exc, RecursionError):
                 sess.probes["recursion_error_on_deep_input"] += 1
             return  # raising is always conforming
+        trunc = _truncated(step["t"], sess.inputs.get(step.get("id", i)), out.value, sess.world)
+        if trunc is not None:
+            sess.violation("truncated-result", i, {"t": model.tsrc(step["t"]), "where": trunc, "f12": step.get("f12"), "got": _s(model.canon(out.value))},
+                           sig="truncated-result")
+            return
         err = conform.conforms(step["t"], out.value, sess.world, step.get("mod"))
         if err is not None:
             sess.violation("non-conforming-result", i, {"t": model.tsrc(step["t"]), "where": err[:200], "f12": step.get("f12"),
                                                         "got": _s(model.canon(out.value))},
                            sig="non-conforming:" + _errclass(err))
+
+
+def _resolve_t(t, world):
+    for _ in range(8):
+        if t["k"] in ("final", "classvar"):
+            t = t["a"]
+        elif t["k"] == "ref" and world.decl(t["m"], t["n"])["d"] in ("newtype", "alias"):
+            t = world.decl(t["m"], t["n"])["t"]
+        else:
+            break
+    return t
+
+
+def _truncated(t, x, r, world, path="$", depth=0):
+    """'never returns a truncated result': where an ordered collection target was given a list
+    or tuple (as a value or as JSON text), the result has one element per input element, at
+    every level where the shapes correspond.  Returns a path or None."""
+    import collections
+    import json as _json
+
+    if depth > 40:
+        return None
+    t = _resolve_t(t, world)
+    if isinstance(x, (str, bytes, bytearray, memoryview)):
+        try:
+            x = _json.loads(bytes(x) if not isinstance(x, str) else x)
+        except Exception:
+            return None
+    k = t["k"]
+    if k in ("list", "deque", "tuplevar", "Sequence", "MutableSequence", "Collection", "Iterable"):
+        if isinstance(x, (list, tuple)) and isinstance(r, (list, tuple, collections.deque)):
+            if len(r) != len(x):
+                return f"{path}: {len(x)} elements in, {len(r)} out"
+            for i, (xe, re_) in enumerate(zip(x, r)):
+                e = _truncated(t["a"], xe, re_, world, f"{path}[{i}]", depth + 1)
+                if e:
+                    return e
+        return None
+    if k in ("dict", "Mapping", "MutableMapping") and isinstance(x, dict) and isinstance(r, dict):
+        for kk, xv in x.items():
+            if kk in r:
+                e = _truncated(t["a"][1], xv, r[kk], world, f"{path}[{kk!r:.20}]", depth + 1)
+                if e:
+                    return e
+        return None
+    if k == "ref" and isinstance(x, dict):
+        d = world.decl(t["m"], t["n"])
+        for f in d.get("fields", ()):
+            if f["n"] in x:
+                rv = r.get(f["n"], None) if isinstance(r, dict) else getattr(r, f["n"], None)
+                if rv is not None:
+                    e = _truncated(f["t"], x[f["n"]], rv, world, f"{path}.{f['n']}", depth + 1)
+                    if e:
+                        return e
+    return None
 
 
 def _errclass(err: str) -> str:
